@@ -53,6 +53,8 @@ func RunPipeline(seed int64, tier, driver, outDir string, n int, search bool, co
 	if len(fixed) == 0 {
 		// the schedule of the property: a second round of forks passes the gate before the first registers
 		cases = append(cases, Case{Min: 2, Max: 2, Warm: 0, ErrKill: 3, SlowForks: true, Seed: 7, Tag: "slow-forks", Actions: []string{"wait:200"}})
+		// a free slot asked for twice from outside the rounds: the second gate decides
+		cases = append(cases, Case{Min: 2, Max: 3, Warm: 0, ErrKill: 3, Seed: 10, Tag: "fork-requests", Actions: []string{"wait:100", "fork:0", "wait:150", "kill:0", "fork:2", "wait:150", "kill:1", "fork:6", "wait:150"}})
 		// errors over the limit
 		cases = append(cases, Case{Min: 1, Max: 2, Warm: 0, ErrKill: 1, Seed: 8, Tag: "errors", Actions: []string{"err:0", "err:0", "err:0", "wait:100"}})
 		// Min above Max (fields set directly)
@@ -101,7 +103,7 @@ func RunPipeline(seed int64, tier, driver, outDir string, n int, search bool, co
 		}
 	}
 	failSeen := map[string]bool{}
-	forks, txs := 0, 0
+	forks, txs, manual := 0, 0, 0
 	for i, run := range runs {
 		c := cases[i]
 		res.Cases++
@@ -109,6 +111,7 @@ func RunPipeline(seed int64, tier, driver, outDir string, n int, search bool, co
 		res.Evaluations += len(run.Lines)
 		res.Transitions += run.Txs
 		forks += run.Forks
+		manual += run.ManualForks
 		txs += run.Txs
 		for _, l := range run.Lines {
 			f := strings.Fields(l)
@@ -168,7 +171,7 @@ func RunPipeline(seed int64, tier, driver, outDir string, n int, search bool, co
 			res.Failures = append(res.Failures, core.FailRec{Prop: "C15", Finding: f.Finding, Msg: f.Msg, File: file})
 		}
 	}
-	res.Extra = map[string]any{"forks": forks, "supervisor_transitions": txs}
+	res.Extra = map[string]any{"forks": forks, "supervisor_transitions": txs, "fork_requests_from_outside_the_rounds": manual}
 	res.WallS = time.Since(t0).Seconds()
 	return res
 }
